@@ -30,6 +30,11 @@ def drivers(tier):
             shapes=((), ('A',), ('HD',), ('A', 'HD'), ('HD', 'A')),
             **common),
             dict(max_states=400000, time_budget=400))
+        d['callback-recreates'] = (WorldDriver(
+            'callback-recreates', types=('A', 'HKR'), ids=(1, 2),
+            explicit_ids=(1,), max_autos=1,
+            shapes=((), ('A',), ('HKR',), ('A', 'HKR')), **common),
+            dict(max_states=400000, time_budget=400))
         # identifiers of unrelated (not mutually orderable) types
         d['mixed-ids'] = (WorldDriver(
             'mixed-ids', types=('A',), ids=(1, 's', (2, 3)),
